@@ -21,6 +21,7 @@ func registry() []PropSpec {
 			ID: "C15",
 			Quick: []HarnessSpec{
 				{Pkg: pkgTracer, Func: "H15a_q", Unwind: 8, Note: "tracingHTTP2Conn.Read/Write/Close against a fake conn returning n in 0..4 and nil / error / timeout error, client and server side"},
+				{Pkg: pkgTracer, Func: "H15c_q", Unwind: 8, Note: "tracingHTTP2Conn.Read/Write hand exactly the bytes returned / given to the frame tracer of their direction, for n in 0..4 and nil / error / timeout error (also n>0 together with an error), client and server side"},
 				{Pkg: pkgTracer, Func: "H15b_q", Unwind: 30, CaseGen: c15Cases(3), CaseNote: "case split: declared payload length of each of 2 frames (0..3) and every partition of the stream into 3 chunks; flags, stream ids and payload bytes symbolic", Note: "http2FrameTracer.trace (response direction): 2 frames of an unknown type, state checked after every chunk"},
 				{Pkg: pkgTracer, Func: "H15r_q", Unwind: 12, Note: "http2RetryCollector: every well-formed history of <=5 operations (stream starts, is refused, completes for good, retry timer fires, connection dies) on two test names; the 3 s retry timer is a stub whose firing is an operation"},
 				{Pkg: pkgTracer, Func: "H15g_q", Unwind: 12, UnwindFor: map[string]int{"vModelCanonicalKey": 24, "vModelToLower": 24, "cancel$1": 40, "cancel": 40}, Note: "tracingHTTP2Conn.handleFrame (server side): every well-formed sequence of <=4 decoded frames on two streams - client HEADERS (open / trailers), server HEADERS (response / trailers), RST_STREAM from either side, GOAWAY with last stream id 0/1/3/5 - with END_STREAM symbolic"},
@@ -191,6 +192,7 @@ func registry() []PropSpec {
 				{Pkg: pkgTracer, Func: "H14a_resp_q", Unwind: 40, CaseGen: c14Cases(2, 2, 2), CaseNote: c14Note(2, 2, 2), Note: "response body: <=2 enveloped messages (any flags byte, any payload bytes), terminal condition EOF / read error (also mid-data) / Close (ok or failing) symbolic; no decompressor"},
 				{Pkg: pkgTracer, Func: "H14a_respz_q", Unwind: 40, CaseGen: c14Cases(2, 2, 2), CaseNote: c14Note(2, 2, 2), Note: "same with a (stub) decompressor negotiated"},
 				{Pkg: pkgTracer, Func: "H14a_req_q", Unwind: 40, CaseGen: c14Cases(2, 2, 2), CaseNote: c14Note(2, 2, 2), Note: "request body, same bounds"},
+				{Pkg: pkgTracer, Func: "H14a_resp3_q", Unwind: 40, CaseGen: c14Cases(1, 3, 3), CaseNote: c14Note(1, 3, 3), Note: "response body: one enveloped message of length 0..3 delivered in 3 reads (payload still incomplete after two of them), same symbolic terminal conditions"},
 				{Pkg: pkgTracer, Func: "H14w_q", Unwind: 40, CaseGen: c14wCases(2, 2, 2), CaseNote: "case split: message lengths, number of bytes accepted in total, their partition into 2 writes, and 0..2 extra bytes of the last write that the underlying writer refuses (short write); flags, payloads and the error of a complete last write symbolic", Note: "tracingResponseWriter.Write: response written by the handler in 2 writes, the last one possibly short / failing"},
 			},
 			Thorough: []HarnessSpec{
@@ -207,6 +209,8 @@ func registry() []PropSpec {
 				{Pkg: pkgInternal, Func: "H09a_q", Unwind: 6, Note: "read(k): k<=4 bytes, <=3 Read calls each returning symbolic (n<=len(p), err in {nil,EOF,other})"},
 				{Pkg: pkgInternal, Func: "H09b_q", Unwind: 6, Note: "readDelimitedMessageRaw: symbolic 4-byte prefix + body <=2 bytes, max size 0..2, <=4 Read calls"},
 				{Pkg: pkgInternal, Func: "H09d_q", Unwind: 6, Note: "as H09b plus a reader that may block forever at any call (stall); timer branch"},
+				{Pkg: pkgInternal, Func: "H09p_q", Unwind: 6, UnwindFor: map[string]int{"h09p": 20}, Only: []string{"(google.golang.org/protobuf/proto.MarshalOptions).Marshal=vModelMarshalBytesValue", "(google.golang.org/protobuf/proto.UnmarshalOptions).Unmarshal=vModelUnmarshalBytesValue"}, Note: "peer-side binary codec: protoEncoder.Encode then protoDecoder.DecodeNext for 0..1 messages of 0..2 symbolic bytes, the stream cut after any number of bytes, delivered in chunks of 1..4 bytes chosen per read, EOF with or after the last bytes"},
+				{Pkg: pkgInternal, Func: "H09p2_q", Unwind: 6, UnwindFor: map[string]int{"h09p": 20}, Only: []string{"(google.golang.org/protobuf/proto.MarshalOptions).Marshal=vModelMarshalBytesValue", "(google.golang.org/protobuf/proto.UnmarshalOptions).Unmarshal=vModelUnmarshalBytesValue"}, Split: []SplitDim{{"nmsg", 0, 2}, {"len0", 0, 2}, {"len1", 0, 2}}, CaseNote: "case split: number of messages and their lengths (the layout of the stream); cut point and payload bytes symbolic", Note: "peer-side binary codec: two messages in order, the stream cut after any number of bytes, reads that fill their buffer"},
 			},
 			Stubs: []string{"io.Reader = script reader with symbolic (n, err) per call, assumed to end/fail/complete within the stated number of calls", "goroutine in readDelimitedMessageRaw runs to completion (or until it blocks) at the spawn point; time.After is ready nondeterministically and fires when nothing else is ready"},
 			Out:   []string{"JSON wire variant (encoding/json)", "real timers", "proto.Marshal/Unmarshal"},
